@@ -1,7 +1,145 @@
-import Driver.Proto
+import Driver.SC08
+import GbVerif.Model.Timer
+import GbVerif.Spec.Lcd
 namespace Driver
+open GbVerif GbVerif.Core
 
-/-- C09 correspondence (stub) -/
-def checkC09 (l : Line) : Verdict := .bad s!"stream {l.stream} not implemented"
+/-! C09: time conservation over generated programs (`c09`, `c09.blocks`) and the `run_frame` probe (`c09.frame`). -/
+
+def timerOf (t : Bus.TimerRegs) : Timer.State := ⟨t.cycleCount, t.counter, t.modulo, t.enabledMask, t.clockMask, t.control⟩
+def regsOfTimer (t : Timer.State) : Bus.TimerRegs :=
+  { cycleCount := t.cycleCount, counter := t.counter, modulo := t.modulo, enabledMask := t.enabledMask,
+    clockMask := t.timerClockMask, control := t.controlValue }
+
+/-- `MemoryAreas::run_clock_cycles` as far as the generated programs can observe it: the OAM-DMA copy, then the timer
+(model of C13).  The LCD is left out: the programs never read LY/STAT and never enable VBlank/STAT in IE. -/
+def devTimer : Dev := fun b k => do
+  let b ← Bus.runDma b k
+  match Timer.runCycles (timerOf b.io.timer) k with
+  | none => .error (.overflow "timer cycle_count")
+  | some (t, f) => pure { b with io := { b.io with timer := regsOfTimer t, ifl := b.io.ifl ||| (if f then 4 else 0) } }
+
+/-- `Core::update` with the `jit` feature, interpreter as block engine -/
+def updateBlocks (dev : Dev) (c : State) : Except Bus.Panic State :=
+  if c.run == .Run then runCodeBlockInterp dev c else update dev c
+
+def handlerBytes : List Nat := [0xf5, 0x3c, 0xf1, 0xd9]
+
+/-- ROM as the harness patches it: NOPs below 0x100, the handler at every vector -/
+def c09Rom (i : Nat) : Nat :=
+  if i < 0x100 then
+    (if i ≥ 0x40 ∧ i < 0x64 ∧ i % 8 < 4 then handlerBytes.getD (i % 8) 0 else 0)
+  else romByte i
+
+structure Obs where
+  div : Nat
+  cyc : Nat
+  lbc : Nat
+  ly : Nat
+  ip : Nat
+  sp : Nat
+  af : Nat
+  bc : Nat
+  de : Nat
+  hl : Nat
+  ime : Nat
+  run : Nat
+  ifl : Nat
+
+def parseObs (s : String) : Obs :=
+  let xs := parseNatList s
+  let g (i : Nat) := xs.getD i 0
+  ⟨g 0, g 1, g 2, g 3, g 4, g 5, g 6, g 7, g 8, g 9, g 10, g 11, g 12⟩
+
+/-- LY of the closed-form LCD schedule (C14) after `t` clocks from power-on -/
+def lyAfter (t : Nat) : Nat := (LcdSpec.sched t).line
+
+def checkRun (l : Line) (blocks : Bool) : Verdict := Id.run do
+  let prog := parseBytes (l.inS "prog")
+  let init := parseNatList (l.inS "init")
+  let mut b := Bus.create .mbc1 4 32768 c09Rom
+  let mut addr := 0xc000
+  for byte in prog do
+    match Bus.write b addr byte with | .ok b' => b := b' | .error _ => return .bad "setup"
+    addr := addr + 1
+  let image := b            -- the static program image (the programs never write to their own code)
+  let regs0 : Interp.Regs := { af := init.getD 0 0, bc := init.getD 1 0, de := init.getD 2 0, hl := init.getD 3 0, sp := 0xdff0, ip := 0xc000 }
+  let mut cm : State := { regs := regs0, bus := b, ime := .Disabled, run := .Run }
+  let mut prev : Obs := ⟨0, 0, 0, 144, 0xc000, 0xdff0, regs0.af, regs0.bc, regs0.de, regs0.hl, 1, 0, 0⟩
+  let mut total := 0
+  let mut k := 0
+  let mut nontrivial := false
+  let mut modelOn := true
+  for stepS in (l.outS "t").splitOn ";" do
+    let cur := parseObs stepS
+    -- 1. the property, from the implementation's outputs (and the SM83 cycle table for instruction steps)
+    let d := (cur.div + 65536 - prev.div) % 65536
+    if d < 4 || d % 4 != 0 then
+      return .specDiff s!"step {k}: the devices received {d} clocks (not a positive number of machine cycles)"
+    if cur.cyc != 0 && cur.cyc != 5 then
+      return .specDiff s!"step {k}: {cur.cyc} machine cycles left pending after the step"
+    if prev.run != 0 then
+      if d != 4 then return .specDiff s!"step {k}: suspended step delivered {d} clocks, expected 4"
+      nontrivial := true
+    else if blocks then
+      if d != 4 * cur.lbc then
+        return .specDiff s!"step {k}: block of {cur.lbc} machine cycles (last_block_cycle_length), devices received {d} clocks"
+    else
+      let b0 := busRd image prev.ip
+      let b1 := busRd image ((prev.ip + 1) % 65536)
+      let b2 := busRd image ((prev.ip + 2) % 65536)
+      match SM83.step specMem (cpuOfRegs prev.af prev.bc prev.de prev.hl prev.sp prev.ip) image b0 b1 b2 with
+      | .ok (_, _, cyc, out) =>
+        if out != .undefined then
+          if d != 4 * (cyc + prev.cyc) then
+            return .specDiff s!"step {k}: instruction {b0},{b1},{b2} at pc={prev.ip} takes {cyc} machine cycles (+{prev.cyc} of a dispatch), devices received {d} clocks"
+      | .error _ => pure ()
+    total := total + d
+    if cur.ly != lyAfter total then
+      return .specDiff s!"step {k}: after {total} clocks LY={cur.ly}, the LCD schedule says {lyAfter total} (LCD and timer did not receive the same clocks)"
+    if cur.cyc == 5 then nontrivial := true
+    -- 2. the model
+    if modelOn then
+      match (if blocks then updateBlocks devTimer cm else update devTimer cm) with
+      | .error _ => return .modelDiff s!"step {k}: model panics"
+      | .ok c' =>
+        cm := c'
+        let got := [c'.delivered % 65536, c'.regs.cycles, c'.regs.ip, c'.regs.sp, c'.regs.af, c'.regs.bc, c'.regs.de, c'.regs.hl,
+                    imeCode c'.ime, runCode c'.run, c'.bus.io.ifl &&& 0x1c]
+        let imp := [cur.div, cur.cyc, cur.ip, cur.sp, cur.af, cur.bc, cur.de, cur.hl, cur.ime, cur.run, cur.ifl &&& 0x1c]
+        let names := ["clocks delivered", "cycles", "PC", "SP", "AF", "BC", "DE", "HL", "IME", "run state", "IF"]
+        for i in [0:11] do
+          if got.getD i 0 != imp.getD i 0 then
+            return .modelDiff s!"step {k}: {names.getD i ""} model={got.getD i 0} impl={imp.getD i 0}"
+        if blocks && prev.run == 0 && c'.lastBlockCycles != cur.lbc then
+          return .modelDiff s!"step {k}: last_block_cycle_length model={c'.lastBlockCycles} impl={cur.lbc}"
+        -- the ghost counters obey the proved invariant (sanity of the tie between theorem and stream)
+        if c'.delivered + 4 * c'.regs.cycles != 4 * c'.charged then
+          return .modelDiff s!"step {k}: model counters delivered={c'.delivered} cycles={c'.regs.cycles} charged={c'.charged}"
+    prev := cur
+    k := k + 1
+  let _ := modelOn
+  return .ok nontrivial
+
+/-- `run_frame` probe: each of the two calls must end, within two frame periods plus one step of emulated time -/
+def checkFrame (l : Line) : Verdict :=
+  let mx := l.outN "mx"
+  let bound := 2 * 70224 + mx
+  let bad (which : String) (e s k : Nat) : Option Verdict :=
+    if e == 0 then
+      some (.specDiff s!"[run_frame.nontermination] {which} run_frame call still polling after {s} steps / {k} clocks (block of {mx} clocks; bound 2 frames + 1 step = {bound})")
+    else if k > bound then
+      some (.specDiff s!"[run_frame.late] {which} run_frame call took {k} clocks, bound {bound}")
+    else none
+  match bad "first" (l.outN "e1") (l.outN "s1") (l.outN "k1") with
+  | some v => v
+  | none =>
+    match bad "second" (l.outN "e2") (l.outN "s2") (l.outN "k2") with
+    | some v => v
+    | none => .ok (mx > 456)
+
+def checkC09 (l : Line) : Verdict :=
+  if l.stream == "c09.frame" then checkFrame l
+  else checkRun l (l.stream == "c09.blocks")
 
 end Driver
